@@ -310,36 +310,36 @@ Proof. vm_compute. repeat split; reflexivity. Qed.
    invalidate+refresh (CIdle -> IvLoad), or a changer drops its
    invalidate+refresh of a counter that is NOT on the list it loaded
    (IvLoad -> close), which is allowed only then. *)
-Theorem C03_multi_step_projects : forall k st i, (k < length (ms_ctrs (fst st)))%nat ->
+Theorem C03_multi_step_projects_with_flags : forall k st i, (k < length (ms_ctrs (fst st)))%nat ->
   ms_chk (fst (mstep st i)) = false -> ms_bad (fst (mstep st i)) = false ->
   xstep (memn k (ms_list (fst st))) (sproj k st) (sproj k (mstep st i)).
 Proof. exact mstep_projects. Qed.
-Print Assumptions C03_multi_step_projects.
+Print Assumptions C03_multi_step_projects_with_flags.
 
 (* ... hence the single-counter invariant holds of every counter's view at every
    instant of every multi schedule - also while a counter is claimed but not yet
    linked and a walk misses it: the claimer's pending redo answers for it
    (the race repaired by f518e0b; without the redo the skip has no justification). *)
-Theorem C03_multi_invariant : forall ms0 ts0 sched k, mgood ms0 ts0 -> reg_init ms0 ->
+Theorem C03_multi_invariant_with_flags : forall ms0 ts0 sched k, mgood ms0 ts0 -> reg_init ms0 ->
   ms_chk (fst (mrun sched (ms0, ts0))) = false -> ms_bad (fst (mrun sched (ms0, ts0))) = false ->
   (k < length (ms_ctrs ms0))%nat ->
   Inv (total_k k ms0 ts0) (sproj k (mrun sched (ms0, ts0))) /\
   Forall (fun t => done_ok t = true) (snd (mrun sched (ms0, ts0))).
 Proof. exact multi_inv. Qed.
-Print Assumptions C03_multi_invariant.
+Print Assumptions C03_multi_invariant_with_flags.
 
 (* every counter, at every instant: persisted + pending <= increments begun on it *)
-Theorem C03_multi_upper_bound : forall ms0 ts0 sched k, mgood ms0 ts0 -> reg_init ms0 ->
+Theorem C03_multi_upper_bound_with_flags : forall ms0 ts0 sched k, mgood ms0 ts0 -> reg_init ms0 ->
   let '(ms, ts) := mrun sched (ms0, ts0) in
   ms_chk ms = false -> ms_bad ms = false -> (k < length (ms_ctrs ms0))%nat ->
   persisted (proj k ms) + w_extra (c_word (getc ms k))
   <= persisted (proj k ms0) + w_extra (c_word (getc ms0 k)) + (sumf unbegun (tsproj k ts0) - sumf unbegun (tsproj k ts)).
 Proof. exact multi_upper_bound. Qed.
-Print Assumptions C03_multi_upper_bound.
+Print Assumptions C03_multi_upper_bound_with_flags.
 
 (* every counter, once all calls have returned and nothing saturated:
    persisted + pending = all increments on it, no reader or lock left *)
-Theorem C03_multi_exact_at_quiescence : forall ms0 ts0 sched k, mgood ms0 ts0 -> reg_init ms0 ->
+Theorem C03_multi_exact_at_quiescence_with_flags : forall ms0 ts0 sched k, mgood ms0 ts0 -> reg_init ms0 ->
   let '(ms, ts) := mrun sched (ms0, ts0) in
   ms_chk ms = false -> ms_bad ms = false -> (k < length (ms_ctrs ms0))%nat ->
   m_all_done ts = true -> c_sat (getc ms k) = false ->
@@ -347,15 +347,15 @@ Theorem C03_multi_exact_at_quiescence : forall ms0 ts0 sched k, mgood ms0 ts0 ->
   = persisted (proj k ms0) + w_extra (c_word (getc ms0 k)) + sumf unbegun (tsproj k ts0) /\
   w_readers (c_word (getc ms k)) = 0.
 Proof. exact multi_exact_at_quiescence. Qed.
-Print Assumptions C03_multi_exact_at_quiescence.
+Print Assumptions C03_multi_exact_at_quiescence_with_flags.
 
 (* no call on any counter dereferences a nil counter pointer *)
-Theorem C03_multi_no_nil_deref : forall ms0 ts0 sched k, mgood ms0 ts0 -> reg_init ms0 ->
+Theorem C03_multi_no_nil_deref_with_flags : forall ms0 ts0 sched k, mgood ms0 ts0 -> reg_init ms0 ->
   let '(ms, ts) := mrun sched (ms0, ts0) in
   ms_chk ms = false -> ms_bad ms = false -> (k < length (ms_ctrs ms0))%nat ->
   Forall (fun u => crashed u = false) (tsproj k ts).
 Proof. exact multi_no_nil_deref. Qed.
-Print Assumptions C03_multi_no_nil_deref.
+Print Assumptions C03_multi_no_nil_deref_with_flags.
 
 (* Non-vacuity, the race of f518e0b: counter 0 registered with 2 pending, counter 1
    fresh; goroutine 0 (Add 3 on counter 1) claims c.next and stops before linking;
@@ -505,6 +505,71 @@ Theorem C03_multi_thread_step_partial3 : forall ms t ms' t', CounterMultiCtl2.MW
   mstep_core ms t = (ms', t') -> CounterMultiCtl3.step3 ms t ms' t'.
 Proof. exact CounterMultiCtl3.thread_step_partial3. Qed.
 Print Assumptions C03_multi_thread_step_partial3.
+
+(* ---- THE GENERAL THEOREMS, ms_bad = false the only flag hypothesis ----
+   (Proofs/CounterMultiCtl3.v)  For every system whose initial state satisfies
+   `ctl_init` (full files and rotations that open a full file - changerM
+   FullFile - admitted) the control invariant `GI3` holds along every run that
+   stays inside the envelope: every thread satisfies `T3` - the base invariant
+   CIb of its base view plus, while a nested walk is on the stack, `wstate` over
+   the virtual family "m_nest j, or the own thread with its G program points
+   mapped to IvLoad / IvCas / RfLoad / CClose" - the registration list is
+   duplicate-free with one linker per claimed counter, and `ms_chk` is clear.
+   Every step of a thread preserves T3 and passes every self check or sets
+   ms_bad (`thread_step3`: unsuspended steps incl. the inline extension, the
+   nested head load, the visit step inside the nested walk - own thread at its
+   G program points, SameFile changer of another counter -, the nested loop
+   control, the nested close).  Hence the self checks of the multi-level control
+   NEVER fail (C03_multi_self_check_never_fails), and the theorems below carry
+   `ms_bad = false` - the run stayed inside the modelled envelope - as their only
+   hypothesis on the flags.  (The versions with both flags as hypotheses, for
+   arbitrary states, are the `_with_flags` theorems above.) *)
+Theorem C03_multi_control_invariant : forall ms0 ts0 sched, mgood ms0 ts0 -> CounterMultiCtl2.ctl_init ms0 ts0 ->
+  CounterMultiCtl3.GI3 (mrun sched (ms0, ts0)).
+Proof. exact CounterMultiCtl3.multi_control_invariant3. Qed.
+Print Assumptions C03_multi_control_invariant.
+
+Theorem C03_multi_self_check_never_fails : forall ms0 ts0 sched, mgood ms0 ts0 -> CounterMultiCtl2.ctl_init ms0 ts0 ->
+  ms_bad (fst (mrun sched (ms0, ts0))) = false -> ms_chk (fst (mrun sched (ms0, ts0))) = false.
+Proof. exact CounterMultiCtl3.multi_chk_clear. Qed.
+Print Assumptions C03_multi_self_check_never_fails.
+
+Theorem C03_multi_step_projects : forall ms0 ts0 sched k i, mgood ms0 ts0 -> CounterMultiCtl2.ctl_init ms0 ts0 ->
+  (k < length (ms_ctrs ms0))%nat -> ms_bad (fst (mstep (mrun sched (ms0, ts0)) i)) = false ->
+  xstep (memn k (ms_list (fst (mrun sched (ms0, ts0))))) (sproj k (mrun sched (ms0, ts0)))
+        (sproj k (mstep (mrun sched (ms0, ts0)) i)).
+Proof. exact CounterMultiCtl3.multi_step_projects3. Qed.
+Print Assumptions C03_multi_step_projects.
+
+Theorem C03_multi_invariant : forall ms0 ts0 sched k, mgood ms0 ts0 -> reg_init ms0 -> CounterMultiCtl2.ctl_init ms0 ts0 ->
+  ms_bad (fst (mrun sched (ms0, ts0))) = false -> (k < length (ms_ctrs ms0))%nat ->
+  Inv (total_k k ms0 ts0) (sproj k (mrun sched (ms0, ts0))) /\
+  Forall (fun t => done_ok t = true) (snd (mrun sched (ms0, ts0))).
+Proof. exact CounterMultiCtl3.multi_inv3. Qed.
+Print Assumptions C03_multi_invariant.
+
+Theorem C03_multi_upper_bound : forall ms0 ts0 sched k, mgood ms0 ts0 -> reg_init ms0 -> CounterMultiCtl2.ctl_init ms0 ts0 ->
+  let '(ms, ts) := mrun sched (ms0, ts0) in
+  ms_bad ms = false -> (k < length (ms_ctrs ms0))%nat ->
+  persisted (proj k ms) + w_extra (c_word (getc ms k))
+  <= persisted (proj k ms0) + w_extra (c_word (getc ms0 k)) + (sumf unbegun (tsproj k ts0) - sumf unbegun (tsproj k ts)).
+Proof. exact CounterMultiCtl3.multi_upper_bound3. Qed.
+Print Assumptions C03_multi_upper_bound.
+
+Theorem C03_multi_exact_at_quiescence : forall ms0 ts0 sched k, mgood ms0 ts0 -> reg_init ms0 -> CounterMultiCtl2.ctl_init ms0 ts0 ->
+  let '(ms, ts) := mrun sched (ms0, ts0) in
+  ms_bad ms = false -> (k < length (ms_ctrs ms0))%nat -> m_all_done ts = true -> c_sat (getc ms k) = false ->
+  persisted (proj k ms) + w_extra (c_word (getc ms k))
+  = persisted (proj k ms0) + w_extra (c_word (getc ms0 k)) + sumf unbegun (tsproj k ts0) /\
+  w_readers (c_word (getc ms k)) = 0.
+Proof. exact CounterMultiCtl3.multi_exact_at_quiescence3. Qed.
+Print Assumptions C03_multi_exact_at_quiescence.
+
+Theorem C03_multi_no_nil_deref : forall ms0 ts0 sched k, mgood ms0 ts0 -> reg_init ms0 -> CounterMultiCtl2.ctl_init ms0 ts0 ->
+  let '(ms, ts) := mrun sched (ms0, ts0) in
+  ms_bad ms = false -> (k < length (ms_ctrs ms0))%nat -> Forall (fun u => crashed u = false) (tsproj k ts).
+Proof. exact CounterMultiCtl3.multi_no_nil_deref3. Qed.
+Print Assumptions C03_multi_no_nil_deref.
 
 From Coq Require Import Arith Lia.
 (* Non-vacuity: the hypotheses hold of the initial state of the registration-race
